@@ -1,2 +1,2 @@
-import Hive.Model.KVCopy
-def main : IO Unit := Hive.Proto.run Hive.KV.pinit Hive.KV.pstepLine
+import Hive.Model.KVTrace
+def main : IO Unit := Hive.Proto.run Hive.KV.tinit Hive.KV.tstepLine
